@@ -89,6 +89,12 @@ def mk_ops(rng, B, rem_bits, leafs, which=None):
                 add('store_uint(out of range)', lambda b, v=v, w=w: b.store_uint(v, w), None, valid=False)
             for v in (1 << (w - 1), -(1 << (w - 1)) - 1):
                 add('store_int(out of range)', lambda b, v=v, w=w: b.store_int(v, w), None, valid=False)
+    # zero-width fields hold only the value 0
+    add('store_uint', lambda b: b.store_uint(0, 0), '')
+    add('store_int', lambda b: b.store_int(0, 0), '')
+    for v in (1, -1, 5, 1 << 64):
+        add('store_uint(out of range)', lambda b, v=v: b.store_uint(v, 0), None, valid=False)
+        add('store_int(out of range)', lambda b, v=v: b.store_int(v, 0), None, valid=False)
     if rem_bits >= 140:
         add('store_coins(2^120)', lambda b: b.store_coins(1 << 120), None, valid=False)
         add('store_coins(negative)', lambda b: b.store_coins(-5), None, valid=False)
